@@ -23,7 +23,7 @@ Section C13.
   (* normalize only rescales intensities *)
   Theorem C13_normalize_shape : forall (p : tip),
     map mz (peaks (normalize N p)) = map mz (peaks p) /\ origin (normalize N p) = origin p
-    /\ ints N (normalize N p) = map (fun x => mul N x (div N (one N) (total N p))) (ints N p).
+    /\ ints (normalize N p) = map (fun x => mul N x (div N (one N) (total N p))) (ints p).
   Proof. exact (normalize_shape N). Qed.
 
   (* truncate_after keeps the shortest prefix whose running sum reaches t -- all peaks if it never does --
@@ -48,8 +48,8 @@ Section C13.
 
   Theorem C13_normalize_ratio : OField N -> forall (p : tip) i j,
     total N p <> zero N ->
-    mul N (nth i (ints N (normalize N p)) (zero N)) (nth j (ints N p) (zero N))
-    = mul N (nth j (ints N (normalize N p)) (zero N)) (nth i (ints N p) (zero N)).
+    mul N (nth i (ints (normalize N p)) (zero N)) (nth j (ints p) (zero N))
+    = mul N (nth j (ints (normalize N p)) (zero N)) (nth i (ints p) (zero N)).
   Proof. exact (normalize_ratio N). Qed.
 
   Theorem C13_truncate_sum : OField N -> forall (p : tip) t,
